@@ -721,11 +721,45 @@ func init() {
 		}
 		return strings.Join(parts, " ") + "\n"
 	}
-	for _, n := range []string{"fmt.Println", "fmt.Printf", "fmt.Print", "fmt.Fprintf", "fmt.Fprintln", "fmt.Fprint"} {
+	for _, n := range []string{"fmt.Println", "fmt.Printf", "fmt.Print"} {
 		n := n
 		intrinsics[n] = func(fr *frame, a []value) value {
 			return tuple{cint(0), iface{}}
 		}
+	}
+	// fmt.Fprint*: render (symbolic strings and byte slices are spliced in for %s / %v) and
+	// hand the bytes to the writer's real Write method in one call, as fmt does.
+	fwrite := func(fr *frame, w value, s value) value {
+		wi := w.(iface)
+		m := findMethod(fr, wi, "Write")
+		if m == nil {
+			panic(unsupported("fmt.Fprint* to a writer without Write"))
+		}
+		r := callValue(fr, m, wi.v, stringToBytes(s))
+		if t, ok := r.(tuple); ok {
+			return t
+		}
+		return tuple{cint(0), iface{}}
+	}
+	intrinsics["fmt.Fprintf"] = func(fr *frame, a []value) value {
+		return fwrite(fr, a[0], formatSym(fr, argStr(a[1]), a[2].([]value)))
+	}
+	intrinsics["fmt.Fprintln"] = func(fr *frame, a []value) value {
+		var out value = ""
+		for i, x := range a[1].([]value) {
+			if i > 0 {
+				out = strConcat(out, " ")
+			}
+			out = strConcat(out, formatSym(fr, "%v", []value{x}))
+		}
+		return fwrite(fr, a[0], strConcat(out, "\n"))
+	}
+	intrinsics["fmt.Fprint"] = func(fr *frame, a []value) value {
+		var out value = ""
+		for _, x := range a[1].([]value) {
+			out = strConcat(out, formatSym(fr, "%v", []value{x}))
+		}
+		return fwrite(fr, a[0], out)
 	}
 
 	// ---- net helpers with netip / unique internals ----
@@ -878,6 +912,69 @@ func errorsAs(fr *frame, err, target iface) value {
 		err = r
 	}
 	return false
+}
+
+// formatSym renders a format string; %s and %v of (possibly symbolic) strings and byte slices
+// are spliced in, everything else must be concrete.
+func formatSym(fr *frame, format string, args []value) value {
+	var out value = ""
+	vi := 0
+	lit := func(s string) { out = strConcat(out, s) }
+	for i := 0; i < len(format); i++ {
+		c := format[i]
+		if c != '%' {
+			lit(string([]byte{c}))
+			continue
+		}
+		j := i + 1
+		for j < len(format) && strings.IndexByte("+-# 0123456789.", format[j]) >= 0 {
+			j++
+		}
+		if j >= len(format) {
+			lit("%!(NOVERB)")
+			break
+		}
+		verb := format[j]
+		flags := format[i+1 : j]
+		i = j
+		if verb == '%' {
+			lit("%")
+			continue
+		}
+		if vi >= len(args) {
+			lit("%!" + string([]byte{verb}) + "(MISSING)")
+			continue
+		}
+		arg := args[vi]
+		vi++
+		if x, ok := arg.(iface); ok && x.t != nil && flags == "" && (verb == 's' || verb == 'v') {
+			switch v := x.v.(type) {
+			case string, *symstr:
+				if !types.Implements(x.t, errorIface) {
+					out = strConcat(out, v)
+					continue
+				}
+			case []value:
+				if verb == 's' {
+					if sl, ok := x.t.Underlying().(*types.Slice); ok {
+						if b, ok := sl.Elem().Underlying().(*types.Basic); ok && b.Kind() == types.Uint8 {
+							out = strConcat(out, mkStr(v))
+							continue
+						}
+					}
+				}
+			}
+		}
+		s := formatOne(fr, verb, flags, arg)
+		if strings.Contains(s, "<sym>") {
+			panic(unsupported("formatting a symbolic value with %" + flags + string(verb)))
+		}
+		lit(s)
+	}
+	if vi < len(args) {
+		lit("%!(EXTRA )")
+	}
+	return out
 }
 
 // formatArgs renders a format string natively when all arguments are concrete.
